@@ -50,6 +50,7 @@ type Config struct {
 	MaxSize   int         `json:"maxSize"`
 	Disk      bool        `json:"disk"`
 	Query     string      `json:"query,omitempty"`
+	ConstSd   int         `json:"constSd,omitempty"` // constant sample duration of the leading track (ticks), 0 = not constant
 }
 
 // Step is one Write call.
@@ -116,6 +117,10 @@ type runner struct {
 	urlOrder []string
 	partBody map[string][]byte // part uri -> body (for concat check), pruned
 	prefix   string
+	panics   []string
+	diag     []string
+	served   map[string]bool
+	segSize  map[string]int // listed segment uri -> bytes (C16 bandwidth)
 }
 
 func variantOf(v string) gohlslib.MuxerVariant {
@@ -172,7 +177,7 @@ func msToTicks(ms int, rate int) int64 {
 // RunScript executes one script and appends its trace.
 func RunScript(w *trace.W, idx int, sc Script, opts Options) error {
 	r := &runner{cfg: sc.Cfg, w: w, fetcher: map[string]*sched.Proc{}, pending: map[string]*httptest.ResponseRecorder{},
-		urls: map[string]*urlInfo{}, partBody: map[string][]byte{}}
+		urls: map[string]*urlInfo{}, partBody: map[string][]byte{}, served: map[string]bool{}}
 	cfg := sc.Cfg
 	r.streams, r.lead, r.leadStr = layout(cfg)
 
@@ -217,7 +222,7 @@ func RunScript(w *trace.W, idx int, sc Script, opts Options) error {
 		"ev": "reset", "i": idx, "variant": cfg.Variant, "lead": r.lead + 1, "leadStream": r.leadStr + 1,
 		"segCount": cfg.SegCount, "segMin": msToTicks(cfg.SegMinMs, leadRate), "partMin": msToTicks(cfg.PartMinMs, leadRate),
 		"maxSize": cfg.MaxSize, "disk": b2i(cfg.Disk), "startErr": b2i(startErr != nil),
-		"ups": leadRate, "query": cfg.Query,
+		"ups": leadRate, "msn": 1000 / gcd(1000, int64(leadRate)), "msd": int64(leadRate) / gcd(1000, int64(leadRate)), "query": cfg.Query, "constSd": cfg.ConstSd, "noemit": b2i(opts.NoEmit),
 	}
 	var tl []trace.M
 	for i, k := range r.kits {
@@ -335,8 +340,20 @@ func (r *runner) write(st Step) (trace.M, bool) {
 func (r *runner) get(path string) *httptest.ResponseRecorder {
 	rec := httptest.NewRecorder()
 	req := httptest.NewRequest(http.MethodGet, "http://host/"+path, nil)
-	r.m.Handle(rec, req)
+	r.safeHandle(rec, req)
 	return rec
+}
+
+// safeHandle turns a panic inside Handle into status 599 (a violation for whoever judges the response).
+func (r *runner) safeHandle(rec *httptest.ResponseRecorder, req *http.Request) {
+	defer func() {
+		if e := recover(); e != nil {
+			rec.Code = 599
+			rec.Body.Reset()
+			r.panics = append(r.panics, fmt.Sprint(e))
+		}
+	}()
+	r.m.Handle(rec, req)
 }
 
 // getNB fetches a path whose handler may park (playlists before the first content). It returns nil while parked.
@@ -358,8 +375,19 @@ func (r *runner) getNB(path string) *httptest.ResponseRecorder {
 	}
 	rec := httptest.NewRecorder()
 	req := httptest.NewRequest(http.MethodGet, "http://host/"+path, nil)
-	p.Start(func() { r.m.Handle(rec, req) }) //nolint:errcheck
-	r.s.Quiesce(3 * time.Second)
+	p.Start(func() { r.safeHandle(rec, req) }) //nolint:errcheck
+	sts, qok := r.s.Quiesce(3 * time.Second)
+	if p.Busy() && r.served[path] {
+		// a path that has been served before never parks again: give a slow machine one more chance
+		time.Sleep(200 * time.Millisecond)
+		sts, qok = r.s.Quiesce(5 * time.Second)
+	}
+	if p.Busy() && r.served[path] {
+		r.diag = append(r.diag, fmt.Sprintf("parked-after-served %s %v quiesced=%v", path, sts, qok))
+	}
+	if !p.Busy() && rec.Code == 200 {
+		r.served[path] = true
+	}
 	if p.Busy() {
 		r.pending[path] = rec
 		return nil
@@ -820,7 +848,11 @@ func (r *runner) observe(ev trace.M, opts Options) {
 		ev["dir"] = r.listDir()
 	}
 	if opts.MV {
-		ev["mv"] = r.observeMV()
+		ev["mv"] = r.observeMV(media)
+	}
+	ev["panics"] = len(r.panics)
+	if len(r.diag) > 0 {
+		ev["diag"] = r.diag
 	}
 }
 
@@ -975,8 +1007,162 @@ func (r *runner) listDir() []trace.M {
 	return out
 }
 
-func (r *runner) observeMV() trace.M {
-	return trace.M{"ok": 0}
+// observeMV projects the multivariant playlist (C16).
+func (r *runner) observeMV(media []*m3u8.Media) trace.M {
+	path := "index.m3u8"
+	if r.cfg.Query != "" {
+		path += "?" + r.cfg.Query
+	}
+	rec := r.getNB(path)
+	if rec == nil {
+		return trace.M{"ok": 0}
+	}
+	if rec.Code != 200 {
+		return trace.M{"ok": -1, "st": rec.Code}
+	}
+	lines := m3u8.Tokenize(rec.Body.String())
+	out := trace.M{"ok": 1, "nvar": 0, "vs": 0, "vq": 0, "codecs": []string{}, "res": "", "fps": "", "bw": -1, "abw": -1,
+		"audio": "", "indep": 0, "ver": 0, "bwok": -1}
+	streamOf := func(uri string) (int, bool) {
+		base, q := splitQuery(uri)
+		for i, s := range r.streams {
+			if base == s.id+"_stream.m3u8" {
+				return i + 1, q == r.cfg.Query
+			}
+		}
+		return 0, false
+	}
+	rend := []trace.M{}
+	for i, ln := range lines {
+		if ln.Kind != "tag" {
+			continue
+		}
+		if ln.AttrErr != "" {
+			return trace.M{"ok": -2, "err": ln.AttrErr}
+		}
+		switch ln.Tag {
+		case "EXT-X-VERSION":
+			out["ver"], _ = strconv.Atoi(ln.Value)
+		case "EXT-X-INDEPENDENT-SEGMENTS":
+			out["indep"] = 1
+		case "EXT-X-STREAM-INF":
+			out["nvar"] = out["nvar"].(int) + 1
+			if a, ok := ln.Get("CODECS"); ok {
+				out["codecs"] = strings.Split(m3u8.Unquote(a.Raw), ",")
+			}
+			if a, ok := ln.Get("RESOLUTION"); ok {
+				out["res"] = a.Raw
+			}
+			if a, ok := ln.Get("FRAME-RATE"); ok {
+				out["fps"] = a.Raw
+			}
+			if a, ok := ln.Get("BANDWIDTH"); ok {
+				out["bw"], _ = strconv.Atoi(a.Raw)
+			}
+			if a, ok := ln.Get("AVERAGE-BANDWIDTH"); ok {
+				out["abw"], _ = strconv.Atoi(a.Raw)
+			}
+			if a, ok := ln.Get("AUDIO"); ok {
+				out["audio"] = m3u8.Unquote(a.Raw)
+			}
+			if i+1 < len(lines) && lines[i+1].Kind == "uri" {
+				si, qok := streamOf(lines[i+1].Value)
+				out["vs"], out["vq"] = si, b2i(qok)
+			}
+		case "EXT-X-MEDIA":
+			e := trace.M{"s": 0, "name": "", "lang": "", "def": 0, "uri": 0, "qok": 1, "group": "", "type": "", "auto": 0}
+			if a, ok := ln.Get("TYPE"); ok {
+				e["type"] = a.Raw
+			}
+			if a, ok := ln.Get("GROUP-ID"); ok {
+				e["group"] = m3u8.Unquote(a.Raw)
+			}
+			if a, ok := ln.Get("NAME"); ok {
+				e["name"] = m3u8.Unquote(a.Raw)
+			}
+			if a, ok := ln.Get("LANGUAGE"); ok {
+				e["lang"] = m3u8.Unquote(a.Raw)
+			}
+			if a, ok := ln.Get("DEFAULT"); ok {
+				e["def"] = b2i(a.Raw == "YES")
+			}
+			if a, ok := ln.Get("AUTOSELECT"); ok {
+				e["auto"] = b2i(a.Raw == "YES")
+			}
+			if a, ok := ln.Get("URI"); ok {
+				si, qok := streamOf(m3u8.Unquote(a.Raw))
+				e["uri"], e["s"], e["qok"] = 1, si, b2i(qok)
+			}
+			rend = append(rend, e)
+		}
+	}
+	// renditions without URI describe the leading stream: identify them by name
+	for _, e := range rend {
+		if e["uri"].(int) == 0 {
+			e["s"] = r.leadStr + 1
+		}
+	}
+	// expected names / languages per stream (documented: Track.Name, else the stream id)
+	for _, e := range rend {
+		si := e["s"].(int)
+		nameOK, langOK := 0, 0
+		if si >= 1 {
+			t := r.streams[si-1].tracks[0]
+			want := r.cfg.Tracks[t].Name
+			if want == "" {
+				want = r.streams[si-1].id
+			}
+			nameOK = b2i(e["name"].(string) == want)
+			langOK = b2i(e["lang"].(string) == r.cfg.Tracks[t].Lang)
+		}
+		e["nameok"], e["langok"] = nameOK, langOK
+		delete(e, "name")
+		delete(e, "lang")
+	}
+	out["rend"] = rend
+	// expected RFC 6381 strings / resolution / frame rate per parameter generation (fixed table, codeckit.go)
+	var cexp [][]string
+	var rexp, fexp []string
+	for _, t := range r.cfg.Tracks {
+		e := expectedParams[t.Codec]
+		cexp = append(cexp, e.codecs)
+		if isVideoCodec(t.Codec) {
+			rexp, fexp = e.res, e.fps
+		}
+	}
+	out["cexp"] = cexp
+	if rexp == nil {
+		rexp, fexp = []string{"", ""}, []string{"", ""}
+	}
+	out["rexp"], out["fexp"] = rexp, fexp
+	// bandwidth of single-stream muxers: peak / mean bit rate of the listed segments (numeric oracle in Go,
+	// durations at the 10 us resolution of the playlist text => tolerance 0.1 %)
+	if len(r.streams) == 1 && media[0] != nil {
+		var peak, sizes, durs float64
+		okb := true
+		for _, sg := range media[0].Segments {
+			if sg.Gap {
+				continue
+			}
+			rc := r.get(sg.URI)
+			if rc.Code != 200 || sg.Dur <= 0 {
+				okb = false
+				break
+			}
+			sz := float64(rc.Body.Len())
+			if b := 8 * sz / sg.Dur; b > peak {
+				peak = b
+			}
+			sizes += sz
+			durs += sg.Dur
+		}
+		if okb && durs > 0 {
+			avg := 8 * sizes / durs
+			near := func(a, b float64) bool { return math.Abs(a-b) <= 0.001*b+1 }
+			out["bwok"] = b2i(near(float64(out["bw"].(int)), peak) && near(float64(out["abw"].(int)), avg))
+		}
+	}
+	return out
 }
 
 func nil2ctx() interface {
